@@ -562,6 +562,9 @@ func thoroughSelftest(ctx *Ctx, rule *Rule, p *engine.Prog, rep *engine.Report, 
 // OverlayFromPatch applies a unified diff to private copies of the files it names and returns them as an overlay
 // (the repository itself is not touched).
 func OverlayFromPatch(repo, patch string) (map[string][]byte, error) {
+	if abs, err := filepath.Abs(patch); err == nil {
+		patch = abs
+	}
 	scratch, err := os.MkdirTemp("", "kvcheck-patch-")
 	if err != nil {
 		return nil, err
